@@ -33,6 +33,7 @@ type pathElem struct {
 type PtrVal struct {
 	Obj  *Obj
 	Path []pathElem
+	Nil  *Term // non-nil: the pointer may be nil (condition); a dereference under it panics
 }
 
 type NilPtr struct{ Type types.Type }
@@ -419,6 +420,23 @@ func (x *Exec) writePath(cur Val, path []pathElem, v Val) Val {
 				}
 			} else if bv, isBV := nv.(*BufVal); isBV && want == SBytes && x.curState != nil {
 				nt = x.bufBytes(x.curState, bv)
+			} else if isPtrSort(want) && x.curState != nil {
+				switch pv := nv.(type) {
+				case *NilPtr:
+					nt = Con(want, True, ZeroOf(want.Fields[1].Sort))
+				case *PtrVal:
+					if cur, ok := x.load(x.curState, pv).(*Term); ok && cur.Sort == want.Fields[1].Sort {
+						nl := False
+						if pv.Nil != nil {
+							nl = pv.Nil
+						}
+						nt = Con(want, nl, cur)
+					}
+				}
+				if nt == nil {
+					x.errorf("storing %T into an optional-pointer field", nv)
+					return c
+				}
 			} else if mr, isMR := nv.(*MapRef); isMR && want != nil && isMapSort(want) && x.curState != nil {
 				// a Go map stored into a struct term: its current content (later updates through the map are not seen by the copy)
 				if mt, ok := x.curState.mem[mr.Obj].(*Term); ok && mt.Sort == want {
@@ -874,7 +892,11 @@ func (x *Exec) step(f *Frame, st *State, ins ssa.Instruction) bool {
 				x.panicSite(f, st, True, "nil dereference at "+x.pos(in.Pos()))
 				return false
 			}
-			f.regs[in] = x.load(st, v)
+			if pv, ok := v.(*PtrVal); ok && pv.Nil != nil {
+				x.panicSite(f, st, pv.Nil, "nil dereference at "+x.pos(in.Pos()))
+				st.assume(Not(pv.Nil))
+			}
+			f.regs[in] = x.materializePtr(st, x.load(st, v), in.Type())
 		case token.NOT:
 			f.regs[in] = Not(v.(*Term))
 		case token.SUB:
@@ -898,6 +920,10 @@ func (x *Exec) step(f *Frame, st *State, ins ssa.Instruction) bool {
 		p := x.value(f, st, in.X)
 		switch pv := p.(type) {
 		case *PtrVal:
+			if pv.Nil != nil {
+				x.panicSite(f, st, pv.Nil, "nil pointer field access at "+x.pos(in.Pos()))
+				st.assume(Not(pv.Nil))
+			}
 			np := &PtrVal{Obj: pv.Obj, Path: append(append([]pathElem(nil), pv.Path...), pathElem{field: in.Field})}
 			f.regs[in] = np
 		case *OpaqueVal:
@@ -915,7 +941,7 @@ func (x *Exec) step(f *Frame, st *State, ins ssa.Instruction) bool {
 		}
 	case *ssa.Field:
 		v := x.value(f, st, in.X)
-		f.regs[in] = x.readElem(v, pathElem{field: in.Field})
+		f.regs[in] = x.materializePtr(st, x.readElem(v, pathElem{field: in.Field}), in.Type())
 	case *ssa.IndexAddr:
 		p := x.value(f, st, in.X)
 		idx, _ := x.value(f, st, in.Index).(*Term)
@@ -1505,6 +1531,9 @@ func (x *Exec) cmpSpecial(st *State, a, b Val) (*Term, bool) {
 		case *NilPtr:
 			return True
 		case *PtrVal:
+			if c.Nil != nil {
+				return c.Nil
+			}
 			return False
 		case *EncVal:
 			return c.Nil
@@ -1823,4 +1852,21 @@ func (x *Exec) sliceElemPtr(f *Frame, st *State, reg ssa.Value, cur *Term, idx *
 		f.sliceObjs[reg] = p
 	}
 	return &PtrVal{Obj: p.Obj, Path: []pathElem{{isIdx: true, idx: idx}}}
+}
+
+// materializePtr: a pointer-typed value read out of a data term (optional-pointer field) becomes a pointer to a private
+// copy of the pointee, carrying its nil condition (A-PTRFIELD: such pointees are not shared).
+func (x *Exec) materializePtr(st *State, v Val, t types.Type) Val {
+	tm, ok := v.(*Term)
+	if !ok || !isPtrSort(tm.Sort) {
+		return v
+	}
+	pt, ok := types.Unalias(t).Underlying().(*types.Pointer)
+	if !ok {
+		return v
+	}
+	o := x.newObj(pt.Elem(), "optptr")
+	st.mem[o] = SelField(tm, 1)
+	x.assumed["A-PTRFIELD: a message-typed pointer field is read as an optional value (pointee not shared)"] = true
+	return &PtrVal{Obj: o, Nil: SelField(tm, 0)}
 }
